@@ -35,8 +35,10 @@ HEADS = ["id", "rec", "num", "str", "arr0", "arr1", "obj", "neg", "pipe", "bin",
 
 # Which Machine variant models the code in /repo:  "asis" = `cartesian` and `Path::combinations` as written
 # (an error item of the left/outer stream is dropped when the right/inner stream is empty);
-# "cartfixed" = after design/fixes/C01-cartesian-left-error.diff has been applied (integrator: switch here).
-MODEL_OF_CODE = os.environ.get("C01_MODEL_OF_CODE", "cartfixed")  # /repo has fix 37351c6
+# "cartfixed" = after design/fixes/C01-cartesian-left-error.diff has been applied (/repo has it: 37351c6);
+# "fixed" = after design/fixes/C01-path-combinations-left-error.diff as well (integrator: switch here when
+# that patch is applied; the Machine variant is then exactly the `cfgF` of the theorems).
+MODEL_OF_CODE = os.environ.get("C01_MODEL_OF_CODE", "cartfixed")
 
 # which constructors of `Ast.Term` are inside the proved fragment (`Core.inFragment`, see Props/C01.lean);
 # the measured number of generated programs inside the fragment comes from the driver (flag F).
@@ -156,7 +158,7 @@ def run(ctx):
     sel = []
     for c, a in zip(cases, answers):
         st, asis0, cartfx, fx, sem = L.split_model(a)
-        asis = asis0 if MODEL_OF_CODE == "asis" else cartfx
+        asis = asis0 if MODEL_OF_CODE == "asis" else fx if MODEL_OF_CODE == "fixed" else cartfx
         c["m"] = (st, asis, fx, sem)
         c["cartfx"] = cartfx
         c["frag"] = st.endswith("F")
